@@ -217,8 +217,32 @@ def hygiene():
 def coqchk(prop_id):
     """Independent re-check of the compiled property file and everything it depends on
     (thorough tier). Returns (ok, summary)."""
-    with Lock("coq"):
-        rc, out = run(["coqchk", "-silent", "-o", "-Q", "theories", "HclV", "HclV.Props." + prop_id], cwd=COQ, timeout=3000)
+    # coqchk re-checks the property file AND everything it depends on; the twenty property files share almost all of
+    # their dependencies (the whole development), so one run over all of them is made per state of the compiled files
+    # and its verdict - which covers this property's file and its whole dependency cone - is reused by the others
+    with Lock("coqchk"):
+        ok_all, _ = coq_make(None)
+        vos = []
+        for root, _, files in os.walk(os.path.join(COQ, "theories")):
+            vos += [os.path.join(root, f) for f in files if f.endswith(".vo")]
+        key = _tree_hash(sorted(vos))
+        cache = os.path.join(CACHE, "coqchk.json")
+        saved = None
+        if os.path.exists(cache):
+            try:
+                saved = json.load(open(cache))
+            except ValueError:
+                saved = None
+        if not ok_all:
+            rc, out = 1, "coq build failed: nothing to re-check"
+        elif saved and saved.get("key") == key:
+            rc, out = saved["rc"], saved["out"]
+        else:
+            mods = sorted("HclV.Props." + f[:-2] for f in os.listdir(os.path.join(COQ, "theories", "Props")) if re.fullmatch(r"C\d\d\.v", f))
+            with Lock("coq"):
+                rc, out = run(["coqchk", "-silent", "-o", "-Q", "theories", "HclV"] + mods, cwd=COQ, timeout=6000)
+            with open(cache, "w") as f:
+                json.dump({"key": key, "rc": rc, "out": out[-6000:]}, f)
     tail = out[out.find("CONTEXT SUMMARY"):] if "CONTEXT SUMMARY" in out else out[-1500:]
     fields = dict((k.strip(), v.strip()) for k, v in re.findall(r"\* ([^:\n]+):\s*([^\n]*(?:\n    [^\n]+)*)", tail))
     ok = (rc == 0 and fields.get("Axioms") == "<none>"
